@@ -8,7 +8,7 @@ import TinkVerif.Gen.GluePrf
     bytes of the CMAC" (the truncation `PrfSet`/`Prf` models apply to `Cmac.compute`);
   * `ValidateAESCMACPRFParams` (whole function) = key size must be exactly 32.
 
-  Abstracted as a parameter: `cmac : Bytes → Bytes` = `a.mac.Reset(); a.mac.Write(data); a.mac.Sum(nil)` of
+  Abstracted as a parameter: `cmac : Bytes → Bytes` = `a.cmac.Compute(data)` of
   tink-go's internal AES-CMAC (tied to `Cmac.compute` separately in Props/GlueTie/CmacFull.lean); the only fact
   used is that it returns one block (16 bytes).  The theorem also shows that the slice `result[:outputLength]`
   never panics (the poison value `[]` would make the equation false for `0 < n`).
